@@ -9,7 +9,7 @@ import (
 func main() {
 	c := core.New("C09", "model_checking")
 	c.Set("rule", "epoch-1 DAG families (all small DAGs with a dominant validator; round DAGs with lagging validators = multi-frame roots) x sealing at every decided frame x next validator set in {same object, equal set, re-weighted with another canonical order, one removed, one added}; epoch 1 is explored over all orders (every sealing transition must give the same blocks and a clean post-seal state: epoch+1, exactly the returned set, no decided frames, no roots); epoch 2 (a round DAG over the new set) is explored over all orders from the shortest and longest sealing path and from instances Reset() to the new epoch from genesis and from a mid-epoch state; all must observe identical states")
-	cons.ExploreEpochs(c, cons.Report{"epoch": true, "accept": true, "order": true, "ref": true, "content": true})
+	cons.ExploreEpochs(c, cons.Report{"epoch": true, "accept": true, "order": true, "ref": true, "content": true}, false)
 	c.Set("exhaustive", !c.Capped())
 	c.Finish()
 }
